@@ -264,6 +264,8 @@ func runUnit(file, unit, filterS, pkg string, attrs map[string]string, smtdir st
 		switch {
 		case !usedContracts[c.Func] && !used[c.Func] && importedContracts[c.Func] != "":
 			// an imported contract this unit does not need
+		case !usedContracts[c.Func] && !used[c.Func] && c.Watch:
+			// a watch contract: absence of the watched call is the normal case
 		case !usedContracts[c.Func] && !used[c.Func]:
 			rep.UnusedContracts = append(rep.UnusedContracts, name)
 		case externContracts[c.Func] && importedContracts[c.Func] == "":
